@@ -313,6 +313,38 @@ def _resources_subscript(node):
     return isinstance(node, ast.Subscript) and _const(node.slice) == 'resources'
 
 
+def once_bound(fnode, e, depth=0):
+    """A plain local that is bound exactly once in the function stands for the expression it was bound to
+    (resources = dp.descriptor.setdefault('resources', []); upstream = super().process_resources(resources))."""
+    if depth > 3 or not isinstance(e, ast.Name):
+        return e
+    vals = [a.value for a in ast.walk(fnode) if isinstance(a, ast.Assign) and len(a.targets) == 1
+            and isinstance(a.targets[0], ast.Name) and a.targets[0].id == e.id]
+    others = [1 for a in ast.walk(fnode) if (isinstance(a, (ast.For, ast.comprehension)) and e.id in {n.id for n in ast.walk(a.target)
+                                                                                                  if isinstance(n, ast.Name)})
+              or (isinstance(a, ast.AugAssign) and isinstance(a.target, ast.Name) and a.target.id == e.id)]
+    if len(vals) == 1 and not others:
+        return once_bound(fnode, vals[0], depth + 1)
+    return e
+
+
+def subst_once(fnode, expr):
+    """expr with every plain local that is bound exactly once in the function (and is not a loop / with / augmented target) replaced by
+    what it was bound to - for matching against a spelling without temporaries."""
+    from sa.astcopy import clone
+
+    class S(ast.NodeTransformer):
+        def visit_Name(self, n):
+            if isinstance(n.ctx, ast.Load):
+                v = once_bound(fnode, n)
+                if v is not n:
+                    return ast.copy_location(clone(v), n)
+            return n
+    out = S().visit(clone(expr))
+    ast.fix_missing_locations(out)
+    return out
+
+
 def _is_resources_expr(e):
     """<something>['resources'] / .get('resources', ..) / .resources"""
     if isinstance(e, ast.Subscript) and _const(e.slice) == 'resources':
@@ -440,6 +472,15 @@ def descr_signature(ctx, fi):
                         and isinstance(x.func.value, ast.Name) and x.func.value.id in flushed:
                     deferred += 1
             sig.append((val, now, deferred))
+        # a generator that lives at module level names its configuration by its own parameters: an atom over such a parameter is the
+        # atom over the argument it was called with (source -> source_)
+        call_ = v.args[0]
+        bound_ = dict(zip(g.params, call_.args))
+        bound_.update({k.arg: k.value for k in call_.keywords if k.arg})
+        ren = {p_: pseudo(a_) for p_, a_ in bound_.items() if pseudo(a_) and pseudo(a_) != p_}
+        if ren:
+            sig = [({((a[0], ren.get(a[1], a[1])) + tuple(a[2:]) if len(a) > 1 else a): pol for a, pol in val.items()}, now, deferred)
+                   for val, now, deferred in sig]
         return ('sig', sig, 0, g, n)
     return ('unmodelled', 'unrecognised rebuild of the resource list: ' + u(n))
 
@@ -622,10 +663,10 @@ def r26_append_order(ctx, rule='R26'):
         for f in targets:
             for x in own_nodes(f.node):
                 if isinstance(x, ast.Call) and isinstance(x.func, ast.Attribute) and x.func.attr in ('append', 'extend') \
-                        and _is_resources_expr(x.func.value):
+                        and _is_resources_expr(once_bound(f.node, x.func.value)):
                     adds.append((f, x, 'tail'))
                 elif isinstance(x, ast.Call) and isinstance(x.func, ast.Attribute) and x.func.attr == 'insert' \
-                        and _is_resources_expr(x.func.value):
+                        and _is_resources_expr(once_bound(f.node, x.func.value)):
                     adds.append((f, x, 'insert'))
                 elif isinstance(x, ast.Assign) and any(_resources_subscript(t) for t in x.targets):
                     adds.append((f, x, 'assign'))
@@ -662,10 +703,11 @@ def r26_append_order(ctx, rule='R26'):
                 if isinstance(nd, (ast.Yield, ast.YieldFrom)):
                     first = nd
                     break
-            ok = isinstance(first, ast.YieldFrom) and isinstance(first.value, ast.Call) and \
-                isinstance(first.value.func, ast.Attribute) and first.value.func.attr == 'process_resources' and \
-                isinstance(first.value.func.value, ast.Call) and u(first.value.func.value.func) == 'super' and \
-                any(isinstance(a, ast.Name) and a.id == param for a in first.value.args)
+            fv = once_bound(pr.node, first.value) if isinstance(first, ast.YieldFrom) else None
+            ok = isinstance(first, ast.YieldFrom) and isinstance(fv, ast.Call) and \
+                isinstance(fv.func, ast.Attribute) and fv.func.attr == 'process_resources' and \
+                isinstance(fv.func.value, ast.Call) and u(fv.func.value.func) == 'super' and \
+                any(isinstance(a, ast.Name) and a.id == param for a in fv.args)
             run.check(ok, rule, pr.where, pr.qualname, 'first yield: ' + (u(first) if first is not None else 'none'),
                       'a step that appends resources must first pass the upstream streams through '
                       '(yield from super().process_resources(%s))' % param)
